@@ -83,6 +83,30 @@ CLAIMS = {
         note="object aliasing is not observable in the dumps (only mutation is the idempotent prune); steps call add_point "
              "on not-yet-recorded points (scoping guard)",
         technique="Coq proof (invariant by induction over operation sequences; refutation witnesses) + correspondence"),
+    "C12": dict(
+        text="Coq theorems over lists REGENERATED from the sources on every run: every class-level counter / registry written "
+             "anywhere in PEPit is reset to its fresh-interpreter value by PEP._reset_classes, which is the first statement of "
+             "PEP.__init__ (totality, finite check lifted to a forall); in the model of the global-state machine, for ALL "
+             "states s, s' and ALL programs starting with PEP(), outputs and final globals coincide (non-interference by "
+             "induction); every use of `verbose` is print-only or forwarded, so the sent data cannot depend on it; the only "
+             "residual state are the module-level null objects, whose stale eval cache (F-C12a) provably cannot reach the "
+             "solver input. Tie: translators + byte-identical comparison of recorded solver input, fresh interpreter vs. "
+             "after random histories (solved / failed / abandoned / raising models), verbose 0/1/2.",
+        ref="DESIGN.md 5.12",
+        note="the step from equal class-level state to equal solver input for full programs rests on the history stream "
+             "(the pipeline itself is C05/C06/C07)",
+        technique="Coq proof (finite generated obligations + non-interference by induction) + history correspondence"),
+    "C16": dict(
+        text="Coq theorems over accessor shapes REGENERATED from the sources (guards, raised exception classes, try/except "
+             "matcher kinds, post-solve order): for every point / expression / constraint / LMI of any depth with an unvalued "
+             "reachable leaf, eval raises ValueError and nothing else, eval_dual without a dual raises ValueError; when the "
+             "wrapper reports no value, solve returns None and writes no value and no dual; invalid option strings end in "
+             "ValueError. Tie: translator + malformed stream (every accessor on every object kind in 7 states, unbounded and "
+             "infeasible models, invalid options) compared with the model's predicted outcome class.",
+        ref="DESIGN.md 5.16",
+        note="only the class of an outcome is modelled; F-C16b (= F-C11d: the MOSEK path returns a number for infeasible / "
+             "unbounded models) observed on the stand-in only",
+        technique="Coq proof over handler shapes regenerated from the source + malformed-input correspondence"),
     "C13": dict(
         text="Coq theorems for every op sequence (edits, solves, failed solves, evaluations): what the k-th solve sends is a "
              "function of the declared model and the fresh objective index only; the amount of data sent does not grow with "
